@@ -27,6 +27,7 @@ def run(ctx: Ctx) -> bool:
     idx = ctx.idx
     f = idx.find_func("check_inst", MOD)
     tp = idx.find_class("TypeParam", PARAM)
+    tb = idx.find_class("TypeBase", "guppylang_internals.tys.ty")  # derived capabilities (`linear`, `affine`) are read off the repository's own properties
     key = f"{f.qualname}#rejects-exactly-the-invalid-instantiations"
     ps = [a.arg for a in f.node.args.args]
     bounds = [(c, d) for c in (False, True) for d in (False, True)]
@@ -48,7 +49,7 @@ def run(ctx: Ctx) -> bool:
                 if kind == "const":
                     inst.append(Tok(f"const_arg{i}", __class__="ConstArg", const=Tok("const", ty=Tok("nat")), __match_args__=("const",), __ident__=1))
                 else:
-                    inst.append(Tok(f"type_arg{i}", __class__="TypeArg", ty=Tok(f"ty{i}", copyable=cp, droppable=dr, __ident__=1), __match_args__=("ty",), __ident__=1))
+                    inst.append(Tok(f"type_arg{i}", __class__="TypeArg", ty=Tok(f"ty{i}", copyable=cp, droppable=dr, __classes__=tb.mro(), __ident__=1), __match_args__=("ty",), __ident__=1))
             fty = Tok("func_ty", __class__="FunctionType", params=params, __ident__=1)
             ev = PyEval(idx, MOD, max_depth=6)
             try:
